@@ -6,8 +6,7 @@ CASE_TYPE = "(dcase * dout)"
 PER_SHARD = 250
 RULE = ("every public command type through DcsCommand::instruction / fill_params_buf on 0xEE-prefilled buffers of length "
         "n-1 (must panic), n and 16, and through write_command / write_raw on a recording Interface directly and via the "
-        "&mut T forwarding impl; all enum variants (10 basic, 36 pixel formats, 3 tearing, 2 invert, all 256 MADCTL bytes reachable "
-        "are covered by C14); u16 arguments from boundaries {0,1,255,256,257,0x7FFF,0x8000,0xFF00,0xFFFE,0xFFFF} x random; "
+        "&mut T forwarding impl; all enum variants (10 basic, 36 pixel formats, 3 tearing, 2 invert), SetAddressMode::new and From<&ModelOptions> on all 2x8x4 inputs and every chain of <= 2 with_* setters (longer chains: C14); u16 arguments from boundaries {0,1,255,256,257,0x7FFF,0x8000,0xFF00,0xFFFE,0xFFFF} x random; "
         "raw instruction/parameter slices of length 0..20; non-trivial = has at least one parameter byte")
 TRUSTED = ["Corr/Dcs.v spec_wire: opcode and big-endian layout written independently of the model's encoders",
            "committed MIPI-DCS opcode table in Proofs/DcsP.v (mipi_opcode)"]
@@ -46,6 +45,23 @@ def gen(rng, tier, info):
         add("te %d" % k, "DCmd (SetTearingEffect %s)" % t, 0 if k == 0 else 1, "tearing")
     for k in (0, 1):
         add("inv %d" % k, "DCmd (SetInvertMode %s)" % b(k), 0, "invert")
+    # SetAddressMode through each of its constructors (all 2 x 8 x 4 inputs) and every chain of <= 2 setters
+    from vlib import coq_orient
+    from props import c14
+    for kind, ctor in (("madnew", "DMadNew"), ("madopts", "DMadOpts")):
+        for bgr in (0, 1):
+            for r in range(4):
+                for m in (0, 1):
+                    for v in (0, 1):
+                        for h in (0, 1):
+                            add("%s %d %d %d %d %d" % (kind, bgr, r, m, v, h),
+                                "%s %s %s %s %s" % (ctor, b(bgr), coq_orient(r, m), b(v), b(h)), 1, "address-mode")
+    import itertools
+    S = c14.setters()
+    for n in (0, 1, 2):
+        for chain in itertools.product(S, repeat=n):
+            add(("madctl %d %s" % (n, " ".join(c14.rust_setter(x) for x in chain))).strip(),
+                "DMadChain [%s]" % "; ".join(c14.coq_setter(x) for x in chain), 1, "address-mode-chain")
     for k in range(n_rand):
         which = rng.below(5)
         if which == 0:
